@@ -5,7 +5,8 @@
    Every input buffer is an exact-size allocation (ASan traps over-reads); every output buffer is an
    exact-size allocation pre-filled with 0xA5 (so octets the library does not write are visible).
    `tape` is the caller's generator: every request is served from the tape, zero octets once it is
-   exhausted; <used> = octets requested.  Outputs are "-" unless err == 0.  Buffers of a wrong length
+   exhausted (dstu.*: a request beyond the end of the tape aborts the op, which prints "exhausted": the
+   library's loops around the generator are unbounded); <used> = octets requested.  Outputs are "-" unless err == 0.  Buffers of a wrong length
    give "bad-op" (same rule in the Lean driver).
 
      b96.params                         -> l p a b q yG                   (24 octets each)
@@ -46,6 +47,7 @@
 #include <bee2/crypto/dstu.h>
 #include <bee2/crypto/pfok.h>
 static void handle(int argc, char** argv);
+#include <setjmp.h>
 #include "common.h"
 
 static const char* g12_names[8] = {
@@ -59,12 +61,17 @@ static const char* dstu_names[10] = {
 static const char* pfok_names[4] = {
 	"test", "1.2.112.0.2.0.1176.2.3.3.2", "1.2.112.0.2.0.1176.2.3.6.2", "1.2.112.0.2.0.1176.2.3.10.2" };
 
-typedef struct { const octet* p; size_t len; size_t used; } tape_t;
+typedef struct { const octet* p; size_t len; size_t used; int strict; } tape_t;
+static jmp_buf tape_jb;
 
+/* strict tapes (dstu: the library loops `while (1)` until the generator delivers a usable value):
+   a request that the tape cannot serve completely aborts the operation, the op prints "exhausted" */
 static void tape_gen(void* buf, size_t count, void* state)
 {
 	tape_t* t = (tape_t*)state;
 	size_t k = t->len < count ? t->len : count;
+	if (t->strict && t->len < count)
+		longjmp(tape_jb, 1);
 	memcpy(buf, t->p, k);
 	memset((octet*)buf + k, 0, count - k);
 	t->p += k, t->len -= k, t->used += count;
@@ -131,7 +138,7 @@ static void h_b96(int argc, char** argv)
 	{
 		load(argv[1], 0);
 		out = outbuf(72);
-		t.p = B[0], t.len = L[0], t.used = 0;
+		t.p = B[0], t.len = L[0], t.used = 0, t.strict = 0;
 		e = bign96KeypairGen(out, out + 24, &prm, tape_gen, &t);
 		out_err(e, out, 72);
 		printf(" %zu", t.used);
@@ -161,7 +168,7 @@ static void h_b96(int argc, char** argv)
 		load(argv[1], 0); load(argv[2], 0); load(argv[3], 0); load(argv[4], 0);
 		if (L[1] != 24 || L[2] != 24) BAD
 		out = outbuf(34);
-		t.p = B[3], t.len = L[3], t.used = 0;
+		t.p = B[3], t.len = L[3], t.used = 0, t.strict = 0;
 		e = bign96Sign(out, &prm, B[0], L[0], B[1], B[2], tape_gen, &t);
 		out_err(e, out, 34);
 		printf(" %zu", t.used);
@@ -209,7 +216,7 @@ static void h_g12(int argc, char** argv)
 	{
 		load(argv[2], 0);
 		out = outbuf(mo + 2 * no);
-		t.p = B[0], t.len = L[0], t.used = 0;
+		t.p = B[0], t.len = L[0], t.used = 0, t.strict = 0;
 		e = g12sKeypairGen(out, out + mo, &prm, tape_gen, &t);
 		out_err(e, out, mo + 2 * no);
 		printf(" %zu", t.used);
@@ -219,7 +226,7 @@ static void h_g12(int argc, char** argv)
 		load(argv[2], 0); load(argv[3], 0); load(argv[4], 0);
 		if (L[0] != mo || L[1] != mo) BAD
 		out = outbuf(2 * mo);
-		t.p = B[2], t.len = L[2], t.used = 0;
+		t.p = B[2], t.len = L[2], t.used = 0, t.strict = 0;
 		e = g12sSign(out, &prm, B[0], B[1], tape_gen, &t);
 		out_err(e, out, 2 * mo);
 		printf(" %zu", t.used);
@@ -258,7 +265,9 @@ static void h_dstu(int argc, char** argv)
 	{
 		load(argv[2], 0);
 		out = outbuf(2 * no);
-		t.p = B[0], t.len = L[0], t.used = 0;
+		t.p = B[0], t.len = L[0], t.used = 0, t.strict = 0;
+		t.strict = 1;
+		if (setjmp(tape_jb)) { printf("exhausted"); goto done; }
 		e = dstuPointGen(out, &prm, tape_gen, &t);
 		out_err(e, out, 2 * no);
 		printf(" %zu", t.used);
@@ -291,7 +300,9 @@ static void h_dstu(int argc, char** argv)
 		if (L[0] != 2 * no) BAD
 		memcpy(prm.P, B[0], 2 * no);
 		out = outbuf(oo + 2 * no);
-		t.p = B[1], t.len = L[1], t.used = 0;
+		t.p = B[1], t.len = L[1], t.used = 0, t.strict = 0;
+		t.strict = 1;
+		if (setjmp(tape_jb)) { printf("exhausted"); goto done; }
 		e = dstuKeypairGen(out, out + oo, &prm, tape_gen, &t);
 		out_err(e, out, oo + 2 * no);
 		printf(" %zu", t.used);
@@ -303,7 +314,9 @@ static void h_dstu(int argc, char** argv)
 		if (L[0] != 2 * no || L[2] != oo || ld > (1u << 16)) BAD
 		memcpy(prm.P, B[0], 2 * no);
 		out = outbuf(O_OF_B(ld));
-		t.p = B[3], t.len = L[3], t.used = 0;
+		t.p = B[3], t.len = L[3], t.used = 0, t.strict = 0;
+		t.strict = 1;
+		if (setjmp(tape_jb)) { printf("exhausted"); goto done; }
 		e = dstuSign(out, &prm, ld, B[1], L[1], B[2], tape_gen, &t);
 		out_err(e, out, O_OF_B(ld));
 		printf(" %zu", t.used);
@@ -342,7 +355,7 @@ static void h_pfok(int argc, char** argv)
 	{
 		load(argv[2], 0);
 		out = outbuf(mo + no);
-		t.p = B[0], t.len = L[0], t.used = 0;
+		t.p = B[0], t.len = L[0], t.used = 0, t.strict = 0;
 		e = pfokKeypairGen(out, out + mo, &prm, tape_gen, &t);
 		out_err(e, out, mo + no);
 		printf(" %zu", t.used);
